@@ -1,4 +1,4 @@
-From PV Require Import Lib.Base Model.Prng Model.Core Model.Stratified Corr.CoreCases.
+From PV Require Import Lib.Base Model.Prng Model.Core Model.Stratified Model.NoDist Model.NoDistStrat Corr.CoreCases.
 Open Scope Q_scope.
 
 Definition zl_eq := list_eqb Z.eqb.
@@ -18,6 +18,16 @@ Inductive case :=
   | StratPval (a : alt) (tst : Q) (d : list Q) (plus1 : bool) (p : Q)
   | Sptm2Case (g c : list Z) (resp : list Q) (impl : result Q).
 
+(* keep_dist=False runs (d = None) are also compared with the model of the counter loop *)
+Definition check_nd (o : result (Q * Q * tape)) (t : tape) (p tst : Q) (d : option (list Q)) (consumed : nat) : bool :=
+  match d with
+  | None => match o with
+            | Ok (mp, mts, t') => rel_close mp p && rel_close mts tst && Nat.eqb (used t t') consumed
+            | Err _ => false
+            end
+  | Some _ => true
+  end.
+
 Definition check_case (cs : case) : bool :=
   match cs with
   | PwgCase x g t out consumed =>
@@ -36,6 +46,10 @@ Definition check_case (cs : case) : bool :=
       end
   | S2sCase g c resp ord s a reps plus1 t p tst d rec consumed =>
       sorted_by c ord &&
+      match s with
+      | Some sv => check_nd (s2s_callable_nodist g c resp ord sv a reps plus1 t) t p tst d consumed
+      | None => true
+      end &&
       match (match s with Some sv => s2s_callable g c resp ord sv a reps plus1 t
                         | None => s2s_mean g c resp ord a reps plus1 t end) with
       | Ok (mp, mtst, md, ar, t') =>
@@ -44,6 +58,7 @@ Definition check_case (cs : case) : bool :=
       | Err _ => false
       end
   | BivCase x g1 g2 reps plus1 t p tst d consumed =>
+      check_nd (bivariate_k_sample_nodist x g1 g2 reps plus1 t) t p tst d consumed &&
       match bivariate_k_sample x g1 g2 reps plus1 t with
       | Ok (mp, mtst, md, ar, t') =>
           rel_close mp p && rel_close mtst tst && opt_check (ql_close md) d && Nat.eqb (used t t') consumed
